@@ -122,6 +122,13 @@ def nextSeqnos (counter : Nat) : Nat → List Nat
   | 0 => []
   | n + 1 => (counter + 1) :: nextSeqnos (counter + 1) n
 
+/-- `channel.Send` called sequentially, one call per element of `mask` (`true` = the first publish
+    of that Send fails): the sequence number is taken from the counter before the publish and is
+    never returned to it.  Result: (sequence number, Send returned an error) per message. -/
+def sendAll (counter : Nat) : List Bool → List (Nat × Bool)
+  | [] => []
+  | failed :: rest => (counter + 1, failed) :: sendAll (counter + 1) rest
+
 /-! ## 4. One broadcast channel, sequentially -/
 
 structure Recv where
